@@ -32,6 +32,16 @@ impl Driven for D {
          _ => panic!("verif harness: unknown relation {}", rel),
       }
    }
+   fn clear(&mut self, rel: &str) {
+      match rel {
+         "w" => { self.0.w = Default::default(); },
+         "sp" => { self.0.sp = Default::default(); },
+         "far" => { self.0.far = Default::default(); },
+         "nsp" => { self.0.nsp = Default::default(); },
+         "tot" => { self.0.tot = Default::default(); },
+         _ => panic!("verif harness: unknown relation {}", rel),
+      }
+   }
    fn run(&mut self) { self.0.run(); }
    fn dump(&self) -> Value {
       let mut m: Vec<(String, Value)> = vec![];
